@@ -4,7 +4,7 @@
 # 4. our quick check(s) for the property: expect exit 1
 set -u
 SD=$1; shift
-WT=$(mktemp -d /dev/shm/seedwt-XXXX)
+WT=$(mktemp -d /dev/shm/seedwt-XXXX); chmod 755 $WT
 git -C /repo archive HEAD | tar -x -C $WT
 ( cd $WT && patch -p1 -s < $SD/patch.diff ) || { echo "PATCH FAILED"; rm -rf $WT; exit 2; }
 echo "== stable tests with the change"
